@@ -22,7 +22,7 @@ TIERS = {
     "quick": {
         "id": 1,
         "runs": 3000,
-        "twin_share": 0.10,
+        "twin_share": 0.5,
         "echo_share": 0.02,
         "cfg": {"steps": [16, 24, 40], "clients": [1, 2, 3], "fault_free_share": 0.25},
         "batch_cap_s": 600,
@@ -162,6 +162,33 @@ def first_divergence(ta, tb):
     return "oracle", -1
 
 
+def minimise_i5(repo, hs, sc, ops):
+    """Shrink a history on which two interpreters (hash seeds hs) disagree."""
+    p2 = Pool(repo, {"X": (1, hs[0]), "Y": (1, hs[1])})
+    try:
+        def differ(sc_, ops_):
+            fa = p2.submit({"t": "replay", "scenario": sc_, "ops": ops_}, "X")
+            fb = p2.submit({"t": "replay", "scenario": sc_, "ops": ops_}, "Y")
+            ra, rb = fa.result(), fb.result()
+            if ra.get("status") in ("harness_error", "invalid") or rb.get("status") in ("harness_error", "invalid"):
+                return None
+            if ra["log_digest"] == rb["log_digest"]:
+                return None
+            for ea, eb in zip(ra["events"], rb["events"]):
+                if ea.get("d") != eb.get("d") or ea.get("chg") != eb.get("chg"):
+                    return (ea, eb)
+            return ({}, {})
+
+        m = minimise.Minimiser(differ, None, budget_s=90, max_replays=300)
+        out = m.run(sc, ops, None)
+        if out is None:
+            return None
+        sc2, ops2, hit = out
+        return {"scenario": sc2, "ops": ops2, "a": hit[0], "b": hit[1], "replays": m.n_replays}
+    finally:
+        p2.close()
+
+
 def main(argv=None):
     ap = argparse.ArgumentParser(prog="check C18")
     ap.add_argument("--tier", choices=sorted(TIERS), default=os.environ.get("VERIF_TIER", "quick"))
@@ -267,8 +294,11 @@ def batch(args):
             if what == "oracle" and ta["log_digest"] == tb["log_digest"]:
                 harness_problem = "divergence of run seed %d between hash seeds %r did not reproduce" % (s, hs)
                 continue
-            i5.append({"seed": s, "what": what, "index": idx, "a": ta, "b": tb, "hashseeds": hs,
-                       "echo": hs[0] == hs[1], "n_divergent": n_env_divergent})
+            rec = {"seed": s, "what": what, "index": idx, "a": ta, "b": tb, "hashseeds": hs,
+                   "echo": hs[0] == hs[1], "n_divergent": n_env_divergent}
+            if what == "value" and hs[0] != hs[1] and not args.no_minimise and len(i5) < 2:
+                rec["minimised"] = minimise_i5(args.repo, hs, ta["scenario"], ta["ops"][: idx + 1] if idx >= 0 else ta["ops"])
+            i5.append(rec)
 
         rc, lines = judge(args, agg, i5, pool, tier, nb, harness_problem)
     finally:
@@ -353,22 +383,30 @@ def judge(args, agg, i5, pool, tier, nb, harness_problem):
         rc = 1
         ea = d["a"]["events"][d["index"]] if d["index"] >= 0 else {}
         eb = d["b"]["events"][d["index"]] if d["index"] >= 0 else {}
+        mini = d.get("minimised")
+        if mini:
+            ea, eb = mini["a"], mini["b"]
         feat = {"invariant": "I5", "kind": "value-vs-value", "family": "", "observed_exc": ea.get("x"),
                 "expected_exc": eb.get("x"), "observed_msg": ea.get("s", ""), "expected_msg": eb.get("s", "")}
         name = "%sC18-I5-%s.json" % (args.out_prefix, d["seed"])
         path = os.path.join(VERIF, "replays", name)
         with open(path, "w") as f:
             json.dump({
-                "format": 1, "property": "C18", "class": "I5", "scenario": d["a"]["scenario"],
-                "ops": d["a"]["ops"][: d["index"] + 1] if d["index"] >= 0 else d["a"]["ops"],
+                "format": 1, "property": "C18", "class": "I5",
+                "scenario": mini["scenario"] if mini else d["a"]["scenario"],
+                "ops": mini["ops"] if mini else (d["a"]["ops"][: d["index"] + 1] if d["index"] >= 0 else d["a"]["ops"]),
                 "hashseeds": d["hashseeds"],
                 "violation": {"invariant": "I5", "step": d["index"], "op": ea.get("op"),
-                              "observed": [None, ea.get("s"), ea.get("x")], "expected": [None, eb.get("s"), eb.get("x")],
+                              "observed": [ea.get("d"), ea.get("s"), ea.get("x")], "expected": [eb.get("d"), eb.get("s"), eb.get("x")],
                               "kind": "value-vs-value", "family": "", "sid": None, "path": (ea.get("op") or [None] * 4)[-1]},
-                "found_by": {"seed": args.seed, "tier": args.tier, "run_seed": d["seed"]},
+                "found_by": {"seed": args.seed, "tier": args.tier, "run_seed": d["seed"],
+                             "minimised_from_steps": len(d["a"]["ops"]),
+                             "note": ("minimised with %d twin replays" % mini["replays"]) if mini else "not minimised"},
+                "occurrences_in_batch": d.get("n_divergent"),
             }, f, indent=1)
         lines.append("VIOLATION property=C18 replay=%s" % path)
-        lines.append("  I5 environment dependence at event %d: %s | %s" % (d["index"], ea.get("s", "")[:90], eb.get("s", "")[:90]))
+        lines.append("  I5 environment dependence (hash seeds %r, %s divergent twins) at %s: %s | %s" % (
+            d["hashseeds"], d.get("n_divergent"), json.dumps(ea.get("op")), ea.get("s", "")[:90], eb.get("s", "")[:90]))
     if agg.harness_errors and rc == 0:
         harness_problem = harness_problem or "%d runs ended in a harness error, e.g. seed %s: %s" % (
             sum(v for k, v in agg.n.items() if k.endswith("harness_error")),
